@@ -322,6 +322,11 @@ var c20Entries = []c20Entry{
 		var buf []byte
 		if c.I >= 0 {
 			buf = make([]byte, c.I%40)
+			// what the scratch buffer still holds differs from one execution of the same call to the next
+			fill := byte(c20Flip.Add(1))*0x5b | 1
+			for i := range buf {
+				buf[i] = fill
+			}
 		}
 		form, neg, coef, exp := c.X.Dec().Decompose(buf)
 		return []string{fmt.Sprint(form, neg, exp), owned(coef)}
